@@ -216,6 +216,80 @@ def make_options(root: str, cache_dir: str | None, store: str = "fs", fmt: str =
     return o
 
 
+def build_in_process(root: str, sources: list[tuple[str, str]], opts_kw: dict[str, Any], ctl: dict[str, Any]) -> dict[str, Any]:
+    """One build in THIS process (used by the forked child of run_build, and directly by C10 to
+    run several builds in one interpreter)."""
+    out: dict[str, Any] = {"killed": False}
+    opts_kw = dict(opts_kw)
+    os.chdir(root)
+    import mypy.build as B
+    from mypy.errors import CompileError
+    from mypy.modulefinder import BuildSource
+
+    orig_create = getattr(B, "_verif_orig_create_metastore", None) or B.create_metastore
+    B._verif_orig_create_metastore = orig_create  # type: ignore[attr-defined]
+
+    def create(options: Any, parallel_worker: bool = False) -> Any:
+        return _make_store_proxy(orig_create(options, parallel_worker), ctl)
+
+    B.create_metastore = create  # type: ignore[assignment]
+    user = set(ctl["user_mods"])
+    orig_fss = getattr(B, "_verif_orig_find_stale_sccs", None) or B.find_stale_sccs
+    B._verif_orig_find_stale_sccs = orig_fss  # type: ignore[attr-defined]
+
+    def fss(sccs: Any, graph: Any, manager: Any) -> Any:
+        stale, fresh = orig_fss(sccs, graph, manager)
+        if ctl["record"]:
+            for kind, lst in (("fresh", fresh), ("stale", stale)):
+                for s in lst:
+                    for m in sorted(s.mod_ids):
+                        if m in user:
+                            ctl["trace"].append({"ev": kind, "mod": m})
+        return stale, fresh
+
+    B.find_stale_sccs = fss  # type: ignore[assignment]
+    try:
+        cli_args = opts_kw.pop("cli_args", None)
+        alt_lib = opts_kw.pop("alt_lib", root)
+        if cli_args is not None:
+            # options built by the real command-line / config-file machinery (main.process_options),
+            # then pointed at the fixtures and the cache directory of this harness
+            from mypy.main import process_options
+
+            _, options = process_options(list(cli_args) + [p for p, _ in sources], fscache=None)
+            base = make_options(root, **opts_kw)
+            for k in ("use_builtins_fixtures", "incremental", "cache_dir", "sqlite_cache", "fixed_format_cache",
+                      "show_traceback", "python_version"):
+                setattr(options, k, getattr(base, k))
+        else:
+            options = make_options(root, **opts_kw)
+        srcs = [BuildSource(p, m, None) for p, m in sources]
+        msgs: list[str] = []
+        try:
+            res = B.build(srcs, options, alt_lib_path=alt_lib)
+            msgs = res.errors
+            out["status"] = 1 if any(": error:" in m for m in msgs) else 0
+            out["rechecked"] = sorted(set(res.manager.rechecked_modules) & user)
+            out["stale"] = sorted(set(res.manager.stale_modules) & user)
+        except CompileError as e:
+            msgs = e.messages
+            out["status"] = 2
+            out["rechecked"] = []
+            out["stale"] = []
+        out["messages"] = msgs
+    finally:
+        B.create_metastore = orig_create  # type: ignore[assignment]
+        B.find_stale_sccs = orig_fss  # type: ignore[assignment]
+    return out
+
+
+def new_ctl(tick: int = 0, record: bool = True, kill_after: int | None = None, fail_writes: Any = (),
+            user_mods: list[str] | None = None) -> dict[str, Any]:
+    return {"nops": 0, "nwrites": 0, "tick": tick, "trace": [], "record": record, "kill_after": kill_after,
+            "fail_writes": set(fail_writes), "user_mods": user_mods or ["a", "b", "c", "d", "e", "p", "p.x", "p.y"],
+            "on_kill": lambda: None}
+
+
 def _build_child(root: str, sources: list[tuple[str, str]], opts_kw: dict[str, Any], ctl: dict[str, Any], wfd: int) -> None:
     """Runs in the forked child; never returns."""
     out: dict[str, Any] = {"killed": False}
@@ -236,58 +310,7 @@ def _build_child(root: str, sources: list[tuple[str, str]], opts_kw: dict[str, A
 
     ctl["on_kill"] = on_kill
     try:
-        os.chdir(root)
-        import mypy.build as B
-        from mypy.errors import CompileError
-        from mypy.modulefinder import BuildSource
-
-        orig_create = B.create_metastore
-
-        def create(options: Any, parallel_worker: bool = False) -> Any:
-            return _make_store_proxy(orig_create(options, parallel_worker), ctl)
-
-        B.create_metastore = create  # type: ignore[assignment]
-        user = set(ctl["user_mods"])
-        orig_fss = B.find_stale_sccs
-
-        def fss(sccs: Any, graph: Any, manager: Any) -> Any:
-            stale, fresh = orig_fss(sccs, graph, manager)
-            if ctl["record"]:
-                for kind, lst in (("fresh", fresh), ("stale", stale)):
-                    for s in lst:
-                        for m in sorted(s.mod_ids):
-                            if m in user:
-                                ctl["trace"].append({"ev": kind, "mod": m})
-            return stale, fresh
-
-        B.find_stale_sccs = fss  # type: ignore[assignment]
-        cli_args = opts_kw.pop("cli_args", None)
-        if cli_args is not None:
-            # options built by the real command-line / config-file machinery (main.process_options),
-            # then pointed at the fixtures and the cache directory of this harness
-            from mypy.main import process_options
-
-            _, options = process_options(list(cli_args) + [p for p, _ in sources], fscache=None)
-            base = make_options(root, **opts_kw)
-            for k in ("use_builtins_fixtures", "incremental", "cache_dir", "sqlite_cache", "fixed_format_cache",
-                      "show_traceback", "python_version"):
-                setattr(options, k, getattr(base, k))
-        else:
-            options = make_options(root, **opts_kw)
-        srcs = [BuildSource(p, m, None) for p, m in sources]
-        msgs: list[str] = []
-        try:
-            res = B.build(srcs, options, alt_lib_path=root)
-            msgs = res.errors
-            out["status"] = 1 if any(": error:" in m for m in msgs) else 0
-            out["rechecked"] = sorted(set(res.manager.rechecked_modules) & user)
-            out["stale"] = sorted(set(res.manager.stale_modules) & user)
-        except CompileError as e:
-            msgs = e.messages
-            out["status"] = 2
-            out["rechecked"] = []
-            out["stale"] = []
-        out["messages"] = msgs
+        out.update(build_in_process(root, sources, opts_kw, ctl))
         finish(0)
     except SystemExit:
         raise
